@@ -53,6 +53,10 @@ type c13State struct {
 	h      *Hist
 	active []*c13Op
 	depth  int
+	// Impact-rate oracle: a rate collected for timeslot T is stored in T's
+	// slot or not at all, whatever lands between fetch and store.
+	prevRates map[uint32]map[uint32]float64 // device -> absolute slot -> rate
+	fetchedAt map[string]uint32             // goroutine parked after a fetch -> clock at the fetch
 }
 
 var c13PostEffect = map[string]map[string]bool{
@@ -89,6 +93,7 @@ func (st *c13State) run(op *c13Op, start func() *Task) {
 // afterStep applies model effects in the order of the real ones: it runs at
 // every quiescent point, after exactly one goroutine has run.
 func (st *c13State) afterStep() {
+	st.checkRates()
 	st.h.applyRotations(false)
 	var parked []*Parked
 	for _, op := range st.active {
@@ -114,6 +119,65 @@ func (st *c13State) afterStep() {
 			op.applied = true
 		}
 	}
+}
+
+// checkRates runs at every quiescent point: every impact rate that appeared or
+// changed during the last step must sit in the slot of the timeslot the clock
+// showed when it was fetched - the current one, or the one recorded when the
+// storing goroutine parked between its fetch and its store.
+func (st *c13State) checkRates() {
+	n := st.h.N
+	if !n.Up || n.S == nil {
+		return
+	}
+	off, rates := n.S.VerifRates()
+	cur := map[uint32]map[uint32]float64{}
+	for id, rs := range rates {
+		mm := map[uint32]float64{}
+		for _, r := range rs {
+			mm[off+r.Index] = r.Rate
+		}
+		cur[id] = mm
+	}
+	allowed := map[uint32]bool{Slot(): true}
+	parkedNow := map[string]bool{}
+	for _, p := range st.w.S.Parked(true) {
+		if p.Node == n.Name && p.Site == "impact.prelock" {
+			parkedNow[p.Name] = true
+		}
+	}
+	for name, t := range st.fetchedAt {
+		allowed[t] = true
+		if !parkedNow[name] {
+			delete(st.fetchedAt, name) // it has stored (or given up) in this step
+		}
+	}
+	if st.prevRates != nil {
+		for id, mm := range cur {
+			for abs, v := range mm {
+				if old, ok := st.prevRates[id][abs]; ok && old == v {
+					continue
+				}
+				if !allowed[abs] {
+					st.w.Fail("C13.linear", "impact-rate", "device %d got an impact rate in the slot of timeslot %d, but the rate was collected for timeslot %v (window offset %d, clock %d): a rotation or clock step between fetch and store misplaced it", id, abs, keysOf(allowed), off, Slot())
+				}
+			}
+		}
+	}
+	for name := range parkedNow {
+		if _, ok := st.fetchedAt[name]; !ok {
+			st.fetchedAt[name] = Slot()
+		}
+	}
+	st.prevRates = cur
+}
+
+func keysOf(m map[uint32]bool) []uint32 {
+	var ks []uint32
+	for k := range m {
+		ks = append(ks, k)
+	}
+	return ks
 }
 
 func (st *c13State) onPark(p *Parked) {
@@ -455,7 +519,7 @@ func runC13(m *Sim) {
 	w := NewWorld(m)
 	defer w.Shutdown()
 	h := NewHist(w, "srv0", "C13")
-	st := &c13State{w: w, h: h}
+	st := &c13State{w: w, h: h, fetchedAt: map[string]uint32{}}
 	SetSlot(uint32(500 + m.C.Int("now0", 2500)))
 	h.Boot()
 	h.Setup(2 + m.C.Int("devices", 2))
